@@ -14,21 +14,36 @@ import (
 )
 
 var rule = fmt.Sprintf("Struct family (types.go): Strs, Nums, Opts (attr/optional of string, int kinds, bool, float kinds, []string, []int, [][]string, map[string]string, map[string]bool, *string/*int/*bool/*float64, cty-tagged struct, []struct), Cty (cty.Value attribute), "+
-	"H0/H1/H2 (block fields as struct, *struct, []struct, []*struct whose body type has 0/1/2 labels, between two attributes), Deep (labelled blocks inside labelled blocks), WrapL0/L1/L2/Mid (gohcl.EncodeAsBlock). "+
+	"H0/H1/H2 (block fields as struct, *struct, []struct, []*struct whose body type has 0/1/2 labels, between two attributes), Deep (labelled blocks inside labelled blocks), Sib (repeated blocks with 1..5 labels as []struct / []*struct), WrapL0..L5/Mid (gohcl.EncodeAsBlock). "+
 	"Values: one field family varied at a time from a fixed base value. String positions (attribute, *string, list element, map value, map key, object attribute, every label, nested attribute) take ALL strings of <= 2 atoms over "+
-	"{a, space, \", \\, $, %%, {, }, LF, TAB, é, U+1F600, ${, %%{} (%d distinct strings; all NFC); two-element positions (list of 2, both labels of a block, labels of 2 repeated blocks, 2 map keys) take all pairs of strings of <= 1 atom (%dx%d); "+
+	"the base atoms {a, space, \", \\, $, %%, {, }, LF, TAB, é, U+1F600, ${, %%{} and the non-printable atoms {DEL, U+0085, U+00A0, U+200B, U+FEFF, U+E000, U+E0001} (1-, 2-, 3- and 4-byte runes that are not unicode.IsPrint) (%d distinct strings; all NFC); "+
+	"two-element positions (list of 2, both labels of a block, labels of 2 repeated blocks, 2 map keys) take all pairs of strings of <= 1 atom (%dx%d); "+
 	"map keys additionally from {a, for, if, in, else, null, true, false, \"\", 'a b', 0, a.b, -, a-b, é, ${x}} singly (each first) and in all unordered pairs; ints {0, ±1, min/max of the type}; floats {0, 0.5, -1.5, 0.1, 1e20, 1e-7, max, smallest denormal}; "+
 	"slices and repeated blocks of length 0..2 (nil and empty); pointers nil/non-nil; block multiplicities as the full product One x Ptr{nil,set} x |Many| 0..2 x |PMany| 0..2; Deep shapes as the full product of 0..2 mid blocks x (0..2 leaf blocks x only{nil,set}) each. "+
+	"Sibling blocks (Sib): for each label count 1..5 ALL ordered pairs of blocks whose label tuples range over {a,b}^n (every shared-prefix length, every position of the difference, identical tuples) and for label counts <= 4 ALL ordered triples; every label position of a 3/4/5-label block over the <= 1-atom strings next to a sibling sharing the other labels. "+
 	"Nil elements of []*struct are outside the domain (the encoder documents no representation for them). Every value is encoded (EncodeIntoBody by pointer and by value, EncodeAsBlock for Wrap*), parsed, decoded into a fresh value (DecodeBody, hclsimple) and compared with "+
-	"reflect.DeepEqual modulo nil == empty for slices/maps and convert-to-original-type for cty.Value; its document model is rendered independently as native text and as 4 JSON twins (object/array forms x literal-only/template mode) which must decode to the same value. "+
-	"Oracle 3: every single edit of the document of each value whose swept strings have <= 1 atom (all structural cases, all single-atom strings, the diagonal of the pair positions) (delete/duplicate an item, add an unexpected attribute / block, attribute<->block, add / remove a label, replace an attribute value by each of 16 literals of other types -- the latter only for the non-swept, structural values) in both syntaxes, and every single line deletion / duplication of the real encoder's output, must decode without panic; "+
+	"reflect.DeepEqual modulo nil == empty for slices/maps and convert-to-original-type for cty.Value; its document model is rendered independently as native text and as up to 8 JSON twins (nesting forms: per-block label nesting with objects / with arrays of objects, and the merged label tree of each run of blocks of one type "+
+	"-- blocks sharing a label prefix with their predecessor become sibling properties of one object / sibling elements of one array, blocks with identical labels one array of bodies, a reappearing label a repeated property name -- with objects / with arrays; each x literal-only / template mode) which must decode to the same value. "+
+	"Oracle 3: every single edit of the document of each value whose swept strings have <= 1 atom of the base atoms (all structural cases, all single-base-atom strings, the diagonal of the pair positions) (delete/duplicate an item, add an unexpected attribute / block, attribute<->block, add / remove a label, replace an attribute value by each of 16 literals of other types -- the latter only for the non-swept, structural values) in both syntaxes, and every single line deletion / duplication of the real encoder's output, must decode without panic; "+
 	"unexpected items and missing required attributes must give error diagnostics, a missing optional attribute must give the value with that field zero (doc.go). "+
-	"thorough: additionally strings of <= 3 atoms over the alphabet extended by {CR, NUL, DEL, U+2028, ~, U+FFFD} (%d strings) at every single string position and all pairs of <= 2-atom strings at the two-element positions (no perturbations for these). "+
+	"thorough: additionally strings of <= 3 atoms over the alphabet extended by {CR, NUL, U+2028, ~, U+FFFD, U+00AD, U+3000, U+10FFFD} (%d strings) at every single string position, all pairs of <= 2-atom strings at the two-element positions and all triples of 5-label sibling blocks (no perturbations for these). "+
 	"Non-trivial = the round trip succeeded (sig = generated source) or the perturbed document was decoded (sig = edit, outcome, diagnostic summaries or decoded value).",
 	len(strs(atomsQuick, 2)), len(strs(atomsQuick, 1)), len(strs(atomsQuick, 1)), len(strs(atomsExt, 3)))
 
-var atomsQuick = []string{"a", " ", "\"", "\\", "$", "%", "{", "}", "\n", "\t", "é", "\U0001F600", "${", "%{"}
-var atomsExt = append(append([]string{}, atomsQuick...), "\r", "\x00", "\x7f", "\u2028", "~", "\ufffd")
+// atomsBase: the escape-relevant characters of the native and JSON syntaxes.
+var atomsBase = []string{"a", " ", "\"", "\\", "$", "%", "{", "}", "\n", "\t", "é", "\U0001F600", "${", "%{"}
+
+// atomsNonPrint: runes that are not unicode.IsPrint (a generator has to write
+// them as \uNNNN / \UNNNNNNNN or literally), one or more of every UTF-8 width
+// and of the general categories Cc (DEL, U+0085 NEL), Zs (U+00A0), Cf (U+200B,
+// U+FEFF, U+E0001) and Co (U+E000). All are inert under NFC.
+var atomsNonPrint = []string{"\x7f", "\u0085", "\u00a0", "\u200b", "\ufeff", "\ue000", "\U000E0001"}
+
+var atomsQuick = append(append([]string{}, atomsBase...), atomsNonPrint...)
+
+// atomsExt adds CR, NUL, U+2028 (Zl), ~, U+FFFD, U+00AD (Cf, 2 bytes), U+3000
+// (Zs, 3 bytes) and U+10FFFD (Co, 4 bytes).
+var atomsExt = append(append([]string{}, atomsQuick...), "\r", "\x00", "\u2028", "~", "\ufffd", "\u00ad", "\u3000", "\U0010FFFD")
 
 var keyAlphabet = []string{"a", "for", "if", "in", "else", "null", "true", "false", "", "a b", "0", "a.b", "-", "a-b", "é", "${x}"}
 
@@ -59,6 +74,7 @@ type stop struct{}
 type bounds struct {
 	S    []string // strings for single positions
 	P    []string // strings for each component of a pair position
+	Trip int      // sibling blocks: all triples of label tuples for blocks of up to this many labels
 	pert bool
 }
 
@@ -75,7 +91,7 @@ func gen(tier string, emit func(engine.Case) bool) {
 	seen := map[string]bool{}
 	run := func(b bounds) {
 		small := map[string]bool{}
-		for _, s := range strs(atomsQuick, 1) {
+		for _, s := range strs(atomsBase, 1) {
 			small[s] = true
 		}
 		var out outFn
@@ -130,9 +146,9 @@ func gen(tier string, emit func(engine.Case) bool) {
 		}
 		genAll(b, out)
 	}
-	run(bounds{S: strs(atomsQuick, 2), P: strs(atomsQuick, 1), pert: true})
+	run(bounds{S: strs(atomsQuick, 2), P: strs(atomsQuick, 1), Trip: 4, pert: true})
 	if tier == "thorough" {
-		run(bounds{S: strs(atomsExt, 3), P: strs(atomsQuick, 2), pert: false})
+		run(bounds{S: strs(atomsExt, 3), P: strs(atomsQuick, 2), Trip: 5, pert: false})
 	}
 }
 
@@ -150,6 +166,7 @@ func genAll(b bounds, out outFn) {
 	genHolder(b, out, "H2", 2, func(l []string, x string) L2 { return L2{K: l[0], N: l[1], X: x} })
 	genWrap(b, out)
 	genDeep(b, out)
+	genSib(b, out)
 }
 
 func genOpts(b bounds, out outFn) {
@@ -517,6 +534,134 @@ func genWrap(b bounds, out outFn) {
 	for _, ls := range labelSets(b, 2, base) {
 		out("WrapL2", "encode-as-block-label", &Wrap[L2]{Blk: L2{K: ls[0], N: ls[1], X: "x"}}, ls...)
 		out("WrapMid", "encode-as-block-label", &Wrap[Mid]{Blk: Mid{K: ls[0], N: ls[1], I: 1, Leaves: []Leaf{{N: ls[1], V: []string{ls[0]}}}}}, ls...)
+	}
+}
+
+// tuples returns all label tuples of length n over the alphabet, in
+// lexicographic order of positions.
+func tuples(alpha []string, n int) [][]string {
+	out := [][]string{{}}
+	for i := 0; i < n; i++ {
+		var next [][]string
+		for _, t := range out {
+			for _, a := range alpha {
+				next = append(next, append(append([]string{}, t...), a))
+			}
+		}
+		out = next
+	}
+	return out
+}
+
+// sibAdd appends a block with the given labels to the block field of Sib whose
+// body type has len(t) labels.
+func sibAdd(v *Sib, t []string, x string) {
+	switch len(t) {
+	case 1:
+		v.B1 = append(v.B1, L1{N: t[0], X: x})
+	case 2:
+		v.B2 = append(v.B2, &L2{K: t[0], N: t[1], X: x})
+	case 3:
+		v.B3 = append(v.B3, L3{A: t[0], B: t[1], C: t[2], X: x})
+	case 4:
+		v.B4 = append(v.B4, &L4{A: t[0], B: t[1], C: t[2], D: t[3], X: x})
+	case 5:
+		v.B5 = append(v.B5, L5{A: t[0], B: t[1], C: t[2], D: t[3], E: t[4], X: x})
+	default:
+		panic("harness: no block type with that many labels")
+	}
+}
+
+// genSib: repeated blocks of one type with 1..5 labels whose label tuples
+// share a prefix of every length (incl. none and all) with their neighbours.
+func genSib(b bounds, out outFn) {
+	const maxL = 5
+	base := []string{"p", "q", "r", "s", "t"}
+	fam := func(nl int) string { return fmt.Sprintf("sibling-blocks-%d-labels", nl) }
+	// structural cases
+	out("Sib", "sibling-blocks-none", &Sib{A: 1, Z: "z"})
+	all := Sib{A: 1, Z: "z"}
+	for nl := 1; nl <= maxL; nl++ {
+		t1 := base[:nl]
+		t2 := append(append([]string{}, base[:nl-1]...), "u") // differs in the last label only
+		v := Sib{A: 1, Z: "z"}
+		sibAdd(&v, t1, "x0")
+		out("Sib", fam(nl), &v)
+		v = Sib{A: 1, Z: "z"}
+		sibAdd(&v, t1, "x0")
+		sibAdd(&v, t2, "x1")
+		out("Sib", fam(nl), &v)
+		v = Sib{A: 1, Z: "z"}
+		sibAdd(&v, t1, "x0")
+		sibAdd(&v, t1, "x1")
+		out("Sib", fam(nl), &v)
+		sibAdd(&all, t1, "x0")
+		sibAdd(&all, t2, "x1")
+	}
+	out("Sib", "sibling-blocks-every-label-count", &all)
+	// all ordered pairs, and up to b.Trip labels all ordered triples, of label
+	// tuples over {a, b}: every shared-prefix length, every position of the
+	// difference, identical tuples, and a tuple that reappears after another
+	ab := []string{"a", "b"}
+	for nl := 1; nl <= maxL; nl++ {
+		ts := tuples(ab, nl)
+		sweepOf := func(tt ...[]string) []string {
+			var w []string
+			for _, t := range tt {
+				w = append(w, t...)
+			}
+			return w
+		}
+		for _, t1 := range ts {
+			for _, t2 := range ts {
+				v := Sib{A: 1, Z: "z"}
+				sibAdd(&v, t1, "x0")
+				sibAdd(&v, t2, "x1")
+				out("Sib", fam(nl), &v, sweepOf(t1, t2)...)
+			}
+		}
+		if nl > b.Trip {
+			continue
+		}
+		for _, t1 := range ts {
+			for _, t2 := range ts {
+				for _, t3 := range ts {
+					v := Sib{A: 1, Z: "z"}
+					sibAdd(&v, t1, "x0")
+					sibAdd(&v, t2, "x1")
+					sibAdd(&v, t3, "x2")
+					out("Sib", fam(nl), &v, sweepOf(t1, t2, t3)...)
+				}
+			}
+		}
+	}
+	// strings in each label position of blocks with 3..5 labels, next to a
+	// sibling that shares the labels before that position
+	for nl := 3; nl <= maxL; nl++ {
+		for i := 0; i < nl; i++ {
+			for _, s := range b.P {
+				t := append([]string{}, base[:nl]...)
+				t[i] = s
+				v := Sib{A: 1, Z: "z"}
+				sibAdd(&v, base[:nl], "x0")
+				sibAdd(&v, t, "x1")
+				out("Sib", fmt.Sprintf("sibling-label-string-%d-labels", nl), &v, s)
+			}
+		}
+	}
+	// EncodeAsBlock of blocks with 3..5 labels
+	for i := 0; i < maxL; i++ {
+		for _, s := range b.P {
+			t := append([]string{}, base...)
+			t[i] = s
+			if i < 3 {
+				out("WrapL3", "encode-as-block-label", &Wrap[L3]{Blk: L3{A: t[0], B: t[1], C: t[2], X: "x"}}, s)
+			}
+			if i < 4 {
+				out("WrapL4", "encode-as-block-label", &Wrap[L4]{Blk: L4{A: t[0], B: t[1], C: t[2], D: t[3], X: "x"}}, s)
+			}
+			out("WrapL5", "encode-as-block-label", &Wrap[L5]{Blk: L5{A: t[0], B: t[1], C: t[2], D: t[3], E: t[4], X: "x"}}, s)
+		}
 	}
 }
 
